@@ -360,6 +360,30 @@ def r03_8(run, model):
     run.floor("diagnostics-returning calls bound in the pipeline", n, 12)
 
 
+def r03_9(run, model):
+    run.rule("R03.9", "substitution resolves completely: every function over Ty whose TVar arm reads the union-find (probe_value) applies "
+                      "itself again to the value it finds (a variable bound to Vec[?1] is not left half-resolved)")
+    UNI = "crates/compiler/src/typer/unify.rs"
+    n = 0
+    for f in model.fns(UNI):
+        if f.body is None:
+            continue
+        for m in S.find(f.body, "Match"):
+            for arm in m["arms"]:
+                pt = S.norm_ws(run.facts.text(UNI, arm["pat"]["sp"]))
+                if not re.search(r"Ty::TVar\(", pt):
+                    continue
+                pv = [c for c in S.walk(arm["body"]) if c["k"] == "MethodCall" and c["method"] == "probe_value"]
+                if not pv:
+                    continue
+                n += 1
+                rec = any(True for _ in S.calls(arm["body"], f.name))
+                run.ob("R03.9", f"{f.qual}|bound variables are resolved recursively", rec, site(UNI, arm["sp"]),
+                       f"the TVar arm of {f.name} {'re-applies ' + f.name + ' to' if rec else 'returns'} the probed value" + ("" if rec else " as it is"),
+                       witness="let v = vec_new(); let w = vec_push(v, \"a\"): the type recorded for v stays Vec[TypeVar(0)] (hover shows it) although inference solved it to Vec[string]")
+    run.floor("TVar arms that read the union-find", n, 3)
+
+
 def strip_callee(c):
     return re.sub(r"<[^<>]*>", "", c).split("::")[-1]
 
@@ -371,6 +395,7 @@ def run(run, model):
     run.try_rule(r03_4, model)
     run.try_rule(r03_5, model)
     run.try_rule(r03_8, model)
+    run.try_rule(r03_9, model)
     run.try_rule(c07.r07_4, model)
     run.try_rule(c07.r07_2, model)
     from rules import c08
